@@ -313,6 +313,15 @@ def bounded_index(n, fam, seen=None):
         return "len() of an in-memory sequence"
     if F.is_call(n, "core::char::methods::<impl char>::len_utf8", "std::char::methods::<impl char>::len_utf8"):
         return "width of a char in bytes (<= 4)"
+    if F.is_call(n, "std::convert::From::from", "std::convert::Into::into") and len(n["args"]) == 1 \
+            and (F.strip(n["args"][0]).get("ty") == "bool" or n["args"][0].get("ty") == "bool"):
+        return "0 or 1 (a bool as an integer)"
+    if F.is_call(n, "std::option::Option::<T>::unwrap_or") and len(n["args"]) == 2 and len(seen) < 12:
+        recv = FL.peel(n["args"][0])
+        if F.is_call(recv, *POSITION_CALLS):
+            d_ = bounded_index(n["args"][1], fam, seen)
+            if d_:
+                return "position() payload, or %s" % d_
     # `<iter>.find(..)?.0` / `<iter>.next()?.0`: the index component of a char_indices()/enumerate() item
     if n.get("k") == "Field" and n.get("name") == "0" and FL.try_operand(F.strip(n["e"])) is not None:
         r_ = payload_is_index(n["e"], [("field", "0")], fam, seen)
@@ -821,7 +830,11 @@ def same_value(a, b, fam):
     return va is not None and vb is not None and FL.same_place(va, vb)
 
 
-def pos_over_same(x, pos, fam, depth=0):
+def has_loop_body(b):
+    return any(n_.get("k") == "Loop" for n_ in F.walk(b["body"]))
+
+
+def pos_over_same(x, pos, fam, depth=0, hd=0):
     """pos <= len(x): it is the payload of position()/binary_search over an iterator of the same
     sequence x, len(x), such a payload + 1, or a match/if all of whose arms are one of these"""
     pos_n = FL.peel(pos)
@@ -834,6 +847,49 @@ def pos_over_same(x, pos, fam, depth=0):
         if inner and "payload" in inner and "+ 1" not in inner:
             return "index payload + 1 (index < len => index + 1 <= len)"
         return None
+    if pos_n.get("k") == "Binary" and pos_n["op"] == "Add" and depth < 3:
+        # a + usize::from(a < len(x)) with a <= len(x): still <= len(x)
+        rv = value_expr(pos_n["r"], fam)
+        rv = FL.peel(rv) if rv is not None else None
+        if rv is not None and F.is_call(rv, "std::convert::From::from", "std::convert::Into::into") and len(rv["args"]) == 1:
+            c_ = FL.peel(rv["args"][0])
+            if c_.get("k") == "Binary" and c_["op"] == "Lt" and same_value(c_["l"], pos_n["l"], fam) and F.is_call(FL.peel(c_["r"]), *LEN_CALLS) \
+                    and FL.same_place(FL.peel(c_["r"])["args"][0], x) and pos_over_same(x, pos_n["l"], fam, depth + 1):
+                return "a + (a < len) as usize with a <= len: at most len"
+    if pos_n.get("k") == "Call" and "fn" in pos_n and hd < 2:
+        # a private helper whose result is a bound of one of its own slice parameters (`fn find_or_end(bytes, p) -> usize`), called
+        # with this sequence in that position
+        fx_ = fam.fx
+        tgt = fx_.by_dp.get(pos_n["fn"].get("dp"))
+        hb = fx_.bodies.get(tgt) if tgt else None
+        if hb is not None and hb["krate"] == "proguard" and hb.get("kind") in ("Fn", "AssocFn") and not hb.get("reachable_pub") and not has_loop_body(hb):
+            t_ = F.strip(hb["body"])
+            while t_.get("k") == "Block" and t_.get("tail") is not None:
+                t_ = F.strip(t_["tail"])
+            results = None if t_.get("k") == "Block" else [t_]
+            if results is not None:
+                for x_ in F.walk(hb["body"]):
+                    if x_.get("k") == "Return":
+                        if x_.get("e") is None:
+                            results = None
+                            break
+                        results.append(x_["e"])
+            if results:
+                fam2 = family_of(fx_, hb)
+                for i_, prm in enumerate(hb["params"]):
+                    pat = prm.get("pat") or {}
+                    if pat.get("k") != "Bind" or i_ >= len(pos_n["args"]) or not re.match(r"^&('\w+ )?(\[.*\]|str)$", prm.get("ty") or ""):
+                        continue
+                    if not FL.same_place(FL.peel(pos_n["args"][i_]), FL.peel(x)):
+                        continue
+                    pnode = {"k": "Var", "id": pat["id"], "name": pat.get("name"), "ty": prm.get("ty")}
+                    if fam2.origins.is_reassigned(pat["id"]):
+                        continue
+                    rs = [pos_over_same(pnode, e_, fam2, 0, hd + 1) for e_ in results]
+                    if all(rs):
+                        return "result of private helper %s: a bound <= len of its parameter `%s`, which is this sequence" % (short_fn(tgt), pat.get("name"))
+        if hb is not None:
+            return None
     if pos_n.get("k") == "Match" and depth < 3 and FL.try_operand(pos_n) is None:
         rs = [pos_over_same(x, a["body"], fam, depth + 1) for a in pos_n["arms"]]
         if rs and all(rs):
@@ -896,7 +952,9 @@ def pos_over_same(x, pos, fam, depth=0):
             and not fam.origins.is_reassigned(pos_n["id"]):
         init = FL.peel(srcs[0][1]) if FL.try_operand(F.strip(srcs[0][1])) is None else None
         if init is not None and (init.get("k") in ("Match", "If", "Binary")
-                                 or F.is_call(init, "std::option::Option::<T>::map_or", "std::option::Option::<T>::unwrap_or")):
+                                 or F.is_call(init, "std::option::Option::<T>::map_or", "std::option::Option::<T>::unwrap_or")
+                                 or (init.get("k") == "Call" and "fn" in init and fam.fx.by_dp.get(init["fn"].get("dp")) in fam.fx.bodies
+                                     and fam.fx.bodies[fam.fx.by_dp.get(init["fn"].get("dp"))]["krate"] == "proguard")):
             return pos_over_same(x, init, fam, depth + 1)
     str_find = None
     for path, expr, how in srcs:
